@@ -146,6 +146,76 @@ def check_config(rep, prog):
             i3, r = run(ap4 + "apply", [S.ref_to(rm), S.ref_to(S.vector(["x", "y", "z"]))])
             pv = polys(i3, r)
             same([pv[k]], [{("xyz"[k],): Fraction(1)}], "A4", "rot-%s-axis" % axis, prog.body(path).where(), "rotate_%s fixes the %s coordinate" % (axis, axis))
+    # ---- A7 orient_y / orient_z (fp only): defining effect and orthogonality of the basis, with the
+    # normalising factor 1/sqrt(.) kept as an opaque (positive) indeterminate and generic non-zero inputs
+    if "fp" in feats:
+        def m_false(it, args, callee, depth):
+            return 0
+
+        def m_rsqrt(it, args, callee, depth):
+            return ("symop", "rsqrt", A.deref_all(it, args[0]), None)
+
+        def generic(op, a_, b_):
+            return {"Eq": False, "Ne": True}.get(op)       # debug_assert_ne!(len_sqr, 0.0) on a generic vector
+
+        def pdot(u, v):
+            acc = {}
+            for x_, y_ in zip(u, v):
+                acc = PL.padd(acc, PL.pmul(x_, y_))
+            return acc
+
+        def pcross(u, v):
+            neg = lambda q: {m: -c2 for m, c2 in q.items()}  # noqa: E731
+            return [PL.padd(PL.pmul(u[1], v[2]), neg(PL.pmul(u[2], v[1]))), PL.padd(PL.pmul(u[2], v[0]), neg(PL.pmul(u[0], v[2]))),
+                    PL.padd(PL.pmul(u[0], v[1]), neg(PL.pmul(u[1], v[0])))]
+        for name, axis in (("orient_y", 1), ("orient_z", 2)):
+            path = M + name
+            it = S.interp(prog, models={"::approx_eq": m_false, "recip_sqrt": m_rsqrt}, oracle=generic)
+            try:
+                om = it.call_body(prog.body(path), [S.vector(["n0", "n1", "n2"]), S.vector(["h0", "h1", "h2"])])
+                pm = polys(it, om)
+            except (A.Undecided, A.Panic, S.NotPolynomial) as e:
+                raise common.Infra("C09.A7: %s could not be evaluated symbolically (%s)" % (path, e))
+            cols = [[pm[r_ * 4 + j] for r_ in range(3)] for j in range(3)]
+            nv = [{("n%d" % i,): Fraction(1)} for i in range(3)]
+            hv = [{("h%d" % i,): Fraction(1)} for i in range(3)]
+            where = prog.body(path).where()
+            same(cols[axis], nv, "A7", name + "-axis", where, "%s(n, x) maps the %s axis onto n" % (name, "xyz"[axis]))
+            orth = same([pdot(cols[0], cols[1]), pdot(cols[1], cols[2]), pdot(cols[0], cols[2])], [{}, {}, {}], "A7", name + "-orth", where,
+                 "%s(n, x): the three basis vectors are pairwise orthogonal for every n and x" % name)
+            other = 2 if axis == 1 else 1
+            same([pdot(cols[other], hv)], [{}], "A7", name + "-hint", where, "%s(n, x): the new %s axis is orthogonal to the hint x" % (name, "xyz"[other]))
+            # the new x axis lies on the hint's side: (x axis).hint = k |n x hint|^2 with k the positive normalising factor
+            dh = pdot(cols[0], hv)
+            ks = {sy for mono in dh for sy in mono if sy.startswith("?")}
+            nxh = pcross(nv, hv)
+            c2 = pdot(nxh, nxh)
+            if len(ks) == 1:
+                kc = PL.pmul({(ks.pop(),): Fraction(1)}, c2)
+                if dh == kc:
+                    rep.inst("C09.A7", "%s: (new x axis).hint = k |n x hint|^2 >= 0 (x axis on the hint's side)" % name, config=cfg)
+                elif dh == {m: -c3 for m, c3 in kc.items()}:
+                    rep.inst("C09.A7", "%s: (new x axis).hint = -k |n x hint|^2" % name, config=cfg)
+                    rep.violate("C09.A7", "A7|%s-side" % name, where,
+                                "%s(n, x): the new x axis points AWAY from the hint x ((x axis).x = -k |n x hint|^2 <= 0): the frame is turned half a revolution about n" % name, config=cfg)
+                else:
+                    rep.notes.append("C09.A7 %s: side of the x axis relative to the hint not decided (form not recognised)" % name)
+            else:
+                rep.notes.append("C09.A7 %s: side of the x axis relative to the hint not decided (no single normalising factor)" % name)
+            # handedness: x-axis = y-axis x z-axis up to a positive factor
+            if not orth:
+                continue
+            c12 = pcross(cols[1], cols[2])
+            d = pdot(c12, cols[0])
+            if d == pdot(cols[0], cols[0]) or d == pdot(c12, c12):
+                rep.inst("C09.A7", "%s: det of the basis is a sum of squares (right-handed)" % name, config=cfg)
+            elif d == {m: -c2 for m, c2 in pdot(cols[0], cols[0]).items()} or d == {m: -c2 for m, c2 in pdot(c12, c12).items()}:
+                rep.inst("C09.A7", "%s: det of the basis is MINUS a sum of squares" % name, config=cfg)
+                rep.violate("C09.A7", "A7|%s-handed" % name, where, "%s builds a left-handed basis: det = -|x axis|^2 for every input (a reflection, not a rotation)" % name, config=cfg)
+            else:
+                raise common.Infra("C09.A7: handedness of %s is not decided by the sum-of-squares forms known to the rule" % name)
+    # ---- A8 inverse (Gauss-Jordan with partial pivoting), decided per pivot sequence
+    inverse_rule(rep, prog, full=(rep.tier == "thorough" and cfg == "ws"))
     # ---- A6 dot / cross
     dot = V + "Vector::<[Sc; N], Sp>::dot"
     a, b, c = S.vector(["a0", "a1", "a2"]), S.vector(["b0", "b1", "b2"]), S.vector(["c0", "c1", "c2"])
@@ -170,6 +240,127 @@ def check_config(rep, prog):
         raise common.AnchorMissing("C09: Vector::cross not found")
 
 
+def inverse_rule(rep, prog, full):
+    """A8: for EVERY choice of pivot rows that partial pivoting can make, Mat4x4::inverse returns a matrix N with
+    N.M = I as an identity of rational functions in the entries of M (exact arithmetic with gcd cancellation).
+    The pivot search itself is executed with its real comparator under an order in which the row to be chosen
+    has the strictly largest magnitude in the column: it must return that row. A chosen pivot is generic
+    non-zero (a zero maximum means a zero column: singular, outside the property)."""
+    cfg = prog.config
+    inv = [p for p in prog.bodies if p.startswith(M + "Matrix::<[[f32; 4]; 4]") and p.endswith("::inverse")]
+    rep.floor("C09.A8.anchor.%s" % cfg, len(inv), 1, "Mat4x4::inverse")
+    body = prog.body(inv[0])
+    where = body.where()
+    zero = ("f", 0.0)
+    mats = [("affine", affine("a", 4))]
+    if full:
+        mats.append(("general", S.matrix("g", 4)))
+    for label, mat in mats:
+        pending = [()]
+        seqs = 0
+        problems = []
+        while pending:
+            prefix = pending.pop()
+            taken = []
+            rows_taken = []
+            pivot_bad = []
+
+            def m_max_by(it, args, callee, depth, prefix=prefix, taken=taken, rows_taken=rows_taken, pivot_bad=pivot_bad):
+                rows = [A.deref_all(it, r) for r in S._drain(S.as_iter(it, args[0]), it, depth)]
+                clo = A.deref_all(it, args[1])
+                ups = [A.deref_all(it, u) for u in clo[2]]
+                this = [u[3][0] if u[0] == "adt" else u for u in ups if isinstance(u, tuple) and u[0] in ("adt", "array")]
+                idx = [u for u in ups if isinstance(u, int)]
+                if len(this) != 1 or not all(isinstance(r, int) for r in rows) or this[0][0] != "array":
+                    raise A.Undecided("pivot search closure does not capture the matrix or its column: %r / rows %r" % ([str(u)[:60] for u in ups], rows))
+                if all(isinstance(e, tuple) and e[0] == "array" for e in this[0][1]):
+                    if len(idx) != 1:
+                        raise A.Undecided("pivot search closure captures a matrix but no column index")
+                    col = {r: this[0][1][r][1][idx[0]] for r in rows}
+                    cidx = idx[0]
+                else:
+                    col = {r: this[0][1][r] for r in rows}         # a copy of the column itself
+                    cidx = len(taken)
+                feasible = [r for r in rows if col[r] != zero]
+                if not feasible:
+                    raise A.Undecided("column %d is identically zero" % cidx)
+                i = len(taken)
+                k = prefix[i] if i < len(prefix) else 0
+                if i >= len(prefix):
+                    for alt in range(1, len(feasible)):
+                        pending.append(tuple(taken) + (alt,))
+                taken.append(k)
+                chosen = feasible[k]
+                rows_taken.append(chosen)
+
+                def rank(v):
+                    if v == zero:
+                        return 0
+                    if isinstance(v, tuple) and v[0] == "symop" and v[1] == "abs":
+                        for r, e in col.items():
+                            if e is v[2] or e == v[2]:
+                                return 2 if r == chosen else 1
+                    # a comparator looking at the SIGNED entries: take the chosen row's entry to be negative (largest
+                    # magnitude) and the others positive — the scenario a signed comparison gets wrong
+                    for r, e in col.items():
+                        if e is v or e == v:
+                            return -1 if r == chosen else 1
+                    return None
+                saved = it.oracle
+
+                def orc(op, a_, b_):
+                    ra, rb = rank(a_), rank(b_)
+                    if ra is None or rb is None:
+                        return saved(op, a_, b_)
+                    return {"Lt": ra < rb, "Gt": ra > rb, "Eq": ra == rb, "Ne": ra != rb, "Le": ra <= rb, "Ge": ra >= rb}[op]
+                it.oracle = orc
+                try:
+                    best = rows[0]
+                    for r in rows[1:]:
+                        cb, cr = A.Frame(None), A.Frame(None)
+                        cb.locals[0], cr.locals[0] = best, r
+                        o = A.deref_all(it, it.invoke(args[1], [("ref", cb, 0, []), ("ref", cr, 0, [])], depth))
+                        if not (isinstance(o, tuple) and o[0] == "adt" and o[1] == "core::cmp::Ordering"):
+                            raise A.Undecided("pivot comparator returned %r" % (o,))
+                        if o[2] != "Greater":
+                            best = r
+                finally:
+                    it.oracle = saved
+                if best != chosen:
+                    pivot_bad.append((cidx, chosen, best))
+                return A.some(chosen)
+
+            def generic(op, a_, b_):
+                if op == "Gt" and isinstance(b_, tuple) and b_[0] == "f" and 0 < b_[1] < 1e-6:
+                    return True                      # the debug assertion |det| > EPSILON: the matrix is invertible
+                return {"Eq": False, "Ne": True}.get(op)
+            it = S.interp(prog, models={"Iterator::max_by": m_max_by, "is_finite": lambda *_a: 1}, oracle=generic)
+            try:
+                r = it.call_body(body, [S.ref_to(mat)])
+                cs, ac = S.components(it, r), S.components(it, mat)
+                pairs = []
+                for i in range(4):
+                    for j in range(4):
+                        acc = zero
+                        for k in range(4):
+                            acc = it.binop("Add", acc, it.binop("Mul", cs[i * 4 + k], ac[k * 4 + j], "f32"), "f32")
+                        pairs.append((acc, ("f", 1.0 if i == j else 0.0)))
+                res = S.field_identities(pairs)
+            except (A.Undecided, A.Panic, S.NotPolynomial, IndexError) as e:
+                raise common.Infra("C09.A8: inverse could not be evaluated symbolically on the %s matrix, pivot rows %s (%s)" % (label, rows_taken, e))
+            seqs += 1
+            wrong = [(n // 4, n % 4) for n, x in enumerate(res) if not x["equal"]]
+            if pivot_bad:
+                problems.append("the pivot search returns row %d in column %d although row %d has the strictly largest magnitude" % (pivot_bad[0][2], pivot_bad[0][0], pivot_bad[0][1]))
+            if wrong:
+                problems.append("with pivot rows %s the result N has (N.M)[%d][%d] != %s" % (rows_taken, wrong[0][0], wrong[0][1], "1" if wrong[0][0] == wrong[0][1] else "0"))
+        rep.inst("C09.A8", "inverse() on a symbolic %s 4x4 matrix: %d pivot sequences, N.M = I in each: %s" % (label, seqs, "holds" if not problems else "FAILS"), config=cfg)
+        rep.floor("C09.A8.%s.%s" % (label, cfg), seqs, 6 if label == "affine" else 24, "pivot sequences of inverse()")
+        if problems:
+            rep.violate("C09.A8", "A8|inverse-%s" % label, where,
+                        "Mat4x4::inverse is not the inverse for every pivoting order (%s matrix, %d pivot sequences): %s" % (label, seqs, "; ".join(problems[:3])), config=cfg)
+
+
 def check(rep, args):
     configs = ["ws"] if rep.tier == "quick" else common.ALL_CONFIGS
     rep.configs = configs
@@ -180,7 +371,7 @@ def check(rep, args):
                        "vectors with symbolic entries; results normalised to polynomials over Q and compared (rotations modulo sin^2+cos^2=1)",
         "evaluations": len(rep.instances),
         "distinct_nontrivial": len({i["what"] for i in rep.instances}),
-        "rules": ["A1", "A2", "A3", "A4", "A5", "A6"],
+        "rules": ["A1", "A2", "A3", "A4", "A5", "A6", "A7", "A8"],
     }
     return "other", cov, ["identities hold over the reals; float rounding, conditioning and the Gauss-Jordan inverse are not decided",
                           "Angle::sin_cos returns (sin a, cos a) with sin^2 + cos^2 = 1"]
